@@ -144,5 +144,6 @@ Emit == pc = "done" /\ IOEnv.EMIT = "1" =>
           PrintT(<<"CASE", ToJson([id |-> scn.id, req |-> SortInts(Required(scn, tl)),
                                    alw |-> SortInts(Allowed(scn, tl)),
                                    tl |-> [i \in DOMAIN tl |-> [t |-> tl[i].t, st |-> tl[i].st]],
-                                   ok |-> Refines /\ Increasing, det |-> Determinate(scn)])>>)
+                                   ok |-> Refines /\ Increasing, det |-> Determinate(scn),
+                                   mt |-> [i \in DOMAIN rows |-> rows[i].t]])>>)
 =============================================================================
